@@ -227,8 +227,15 @@ func (in *Interp) exec(s Stmt, sc *scope) (signal, Val) {
 	case *ForRange:
 		lo := in.eval(st.Lo, sc).(*big.Int)
 		hi := in.eval(st.Hi, sc).(*big.Int)
-		for i := new(big.Int).Set(lo); ; i = new(big.Int).Add(i, big.NewInt(1)) {
-			c := i.Cmp(hi)
+		step := big.NewInt(1)
+		if st.Step != nil {
+			step = in.eval(st.Step, sc).(*big.Int)
+			if step.Sign() == 0 {
+				in.fail("range step 0")
+			}
+		}
+		for i := new(big.Int).Set(lo); ; i = new(big.Int).Add(i, step) {
+			c := i.Cmp(hi) * step.Sign()
 			if c > 0 || (c == 0 && !st.Inclusive) {
 				break
 			}
